@@ -241,3 +241,244 @@ def oneshot(rng, T, roots, fail=(), gated=True, tag='os', cap=None, hang_s=None)
         run.kill()
         proj.close()
         vf.sh(['rm', '-rf', d])
+
+
+# ---------------------------------------------------------------------------------------------- signal scenarios (C10)
+
+EXIT_BOUND_S = 3.0          # measured exit latency after a signal: ~5 ms, whatever the scripts are doing
+
+
+def signal_scenario(rng, T, roots, when, sig, tag='sg', watch=False):
+    """Starts zinoma on gated builds, sends `sig` at the chosen moment, checks prompt exit and no process left."""
+    d = vf.scratch_dir(tag)
+    spec = {t: {'kind': s['kind'], 'deps': s['deps'], 'gated': s['kind'] == 'build'} for t, s in T.items()}
+    proj = blackbox.Project(d, spec)
+    run = blackbox.Run(proj, (['--watch'] if watch else []) + list(roots))
+    V = {}
+
+    def bad(prop, text):
+        V.setdefault(prop, []).append(text)
+    try:
+        clo = closure(T, roots)
+        nbuilds = len([t for t in clo if T[t]['kind'] == 'build'])
+        if when == 'immediately':
+            pass
+        elif when == 'first_start':
+            run.wait_trace(lambda tr: len(tr) >= 1, 5)
+        elif when == 'all_blocked':
+            # release nothing: wait until no new start appears for a moment (all startable scripts are blocked on their gate)
+            run.wait_trace(lambda tr: len(tr) >= 1, 5)
+            run.idle_for(0.3)
+        elif when == 'between':
+            # let some builds finish, signal right after a release (between dependent builds)
+            k = rng.randint(1, max(1, nbuilds))
+            for _ in range(k):
+                if not run.wait_trace(lambda tr: bool(run.pending()), 3):
+                    break
+                p = run.pending()
+                if not p:
+                    break
+                run.release(rng.choice(sorted(p)), 0)
+        elif when == 'after_done':
+            blackbox.drive_to_end(run, rng, hang_s=0.5)
+        if run.poll() is None:
+            t0 = time.time()
+            run.signal(sig)
+            if not run.wait_exit(EXIT_BOUND_S):
+                bad('C10', '%s sent %s (%d start lines so far): no exit within %.0fs although the measured latency is ~5ms'
+                    % (signal.Signals(sig).name, when, len(run.trace()), EXIT_BOUND_S))
+            lat = time.time() - t0
+        else:
+            lat = None
+        if run.poll() is not None:
+            left = run.leftover()
+            t0 = time.time()
+            while left and time.time() - t0 < 2:
+                time.sleep(0.02)
+                left = run.leftover()
+            if left:
+                bad('C10', 'after %s %s zinoma exited but these script/service shells are still there: %s'
+                    % (signal.Signals(sig).name, when, left))
+        obs = {'targets': T, 'roots': list(roots), 'when': when, 'signal': signal.Signals(sig).name, 'latency_s': lat,
+               'exit_code': run.exit_code, 'trace': run.trace(), 'watch': watch}
+        return obs, V
+    finally:
+        run.kill()
+        proj.close()
+        vf.sh(['rm', '-rf', d])
+
+
+# ---------------------------------------------------------------------------------------------- rendezvous (C17)
+
+def rendezvous(rng, k, tag='rv', with_noise=True):
+    """k mutually independent gated builds under one aggregate/build top; all of them must be in progress at the same
+    time (every one blocked on its gate) before any is released. A running service and a long unrelated build alongside."""
+    T = {}
+    order = list(range(k))
+    rng.shuffle(order)
+    for i in order:
+        T['p%d' % i] = {'kind': 'build', 'deps': ['lib'] if (with_noise and i % 2) else []}
+    if with_noise:
+        T['lib'] = {'kind': 'build', 'deps': []}
+        T['svc'] = {'kind': 'service', 'deps': []}
+        T['slow'] = {'kind': 'build', 'deps': ['svc']}
+    tops = ['p%d' % i for i in order]
+    rng.shuffle(tops)
+    T['top'] = {'kind': rng.choice(['aggregate', 'build']), 'deps': tops}
+    roots = ['top'] + (['slow'] if with_noise else [])
+    rng.shuffle(roots)
+    d = vf.scratch_dir(tag)
+    spec = {t: {'kind': s['kind'], 'deps': s['deps'], 'gated': s['kind'] == 'build'} for t, s in T.items()}
+    proj = blackbox.Project(d, spec)
+    run = blackbox.Run(proj, roots)
+    V = {}
+    try:
+        # lib must finish first for the odd ones; slow stays blocked for the whole scenario (never released before the end)
+        def all_in_progress(tr):
+            started = {t for kx, t, _ in tr if kx == 'start'}
+            return all(('p%d' % i) in started for i in range(k))
+        t0 = time.time()
+        released_lib = False
+        ok = False
+        while time.time() - t0 < 20:
+            pend = run.pending()
+            if 'lib' in pend and not released_lib:
+                run.release('lib', 0)
+                released_lib = True
+            if all_in_progress(run.trace()):
+                ok = True
+                break
+            if run.poll() is not None:
+                break
+            time.sleep(0.005)
+        tr = run.trace()
+        if not ok:
+            started = sorted({t for kx, t, _ in tr if kx == 'start'})
+            V.setdefault('C17', []).append(
+                '%d independent builds never were in progress together while none of them was released and an unrelated build '
+                '(slow) and a service were running; started so far: %s' % (k, started))
+        obs = {'targets': T, 'roots': roots, 'k': k, 'trace': tr, 'all_in_progress': ok, 'wait_s': round(time.time() - t0, 3)}
+        return obs, V
+    finally:
+        run.kill()
+        proj.close()
+        vf.sh(['rm', '-rf', d])
+
+
+# ---------------------------------------------------------------------------------------------- service lifetime (C11)
+
+def service_scenario(rng, T, roots, tag='sv'):
+    """One-shot run; records for every dependent build whether its service dependencies were alive while it was in progress,
+    whether zinoma stays alive exactly when a service is behind a requested target, and that services die with zinoma."""
+    d = vf.scratch_dir(tag)
+    spec = {t: {'kind': s['kind'], 'deps': s['deps'], 'gated': s['kind'] == 'build'} for t, s in T.items()}
+    proj = blackbox.Project(d, spec)
+    run = blackbox.Run(proj, list(roots))
+    V = {}
+
+    def bad(text):
+        V.setdefault('C11', []).append(text)
+    try:
+        t0 = time.time()
+        checked = 0
+        while time.time() - t0 < 60:
+            if run.poll() is not None:
+                break
+            pend = run.pending()
+            if pend:
+                tr = run.trace()
+                pids = {}
+                for kx, t, pid in tr:
+                    if kx == 'start' and T[t]['kind'] == 'service':
+                        pids.setdefault(t, []).append(int(pid))
+                for b in pend:
+                    for sdep in eff_deps(T, b):
+                        if T[sdep]['kind'] == 'service':
+                            alive = [p for p in pids.get(sdep, []) if blackbox.proc_state(p) not in (None, 'Z')]
+                            checked += 1
+                            if len(alive) != 1:
+                                bad('build %s is in progress but its service dependency %s has %d live instances (pids %s)'
+                                    % (b, sdep, len(alive), pids.get(sdep)))
+                run.release(rng.choice(sorted(pend)), 0)
+                continue
+            if run.idle_for(0.4) and not run.pending():
+                break
+        keepalive = any(service_behind(T, r) for r in roots)
+        alive_now = run.poll() is None
+        if keepalive and not alive_now:
+            bad('a service is requested (roots %s) but zinoma exited with status %s' % (roots, run.exit_code))
+        if not keepalive:
+            if alive_now and not run.wait_exit(blackbox.HANG_S):
+                bad('no service is behind the requested targets %s but zinoma stays alive after the builds' % roots)
+        if keepalive and alive_now:
+            # every requested service instance must be alive while zinoma waits
+            tr = run.trace()
+            for kx, t, pid in tr:
+                if kx == 'start' and T[t]['kind'] == 'service' and blackbox.proc_state(int(pid)) in (None, 'Z'):
+                    bad('service %s (pid %s) is not alive while zinoma waits for a termination signal' % (t, pid))
+            run.signal(signal.SIGTERM)
+            if not run.wait_exit(EXIT_BOUND_S):
+                V.setdefault('C10', []).append('SIGTERM while services run: no exit within %.0fs' % EXIT_BOUND_S)
+        if run.poll() is not None:
+            left = run.leftover()
+            t1 = time.time()
+            while left and time.time() - t1 < 2:
+                time.sleep(0.02)
+                left = run.leftover()
+            if left:
+                bad('services/scripts left running after zinoma exited: %s' % left)
+                V.setdefault('C10', []).append('processes left behind: %s' % left)
+        n_inst = {}
+        for kx, t, pid in run.trace():
+            if kx == 'start' and T[t]['kind'] == 'service':
+                n_inst[t] = n_inst.get(t, 0) + 1
+        for t, n in n_inst.items():
+            if n > 1:
+                bad('service %s was started %d times in a one-shot run' % (t, n))
+        obs = {'targets': T, 'roots': list(roots), 'trace': run.trace(), 'keepalive_expected': keepalive,
+               'alive_after_builds': alive_now, 'exit_code': run.exit_code, 'liveness_checks': checked}
+        return obs, V
+    finally:
+        run.kill()
+        proj.close()
+        vf.sh(['rm', '-rf', d])
+
+
+# ---------------------------------------------------------------------------------------------- aggregate = its dependencies (C20)
+
+def aggregate_pair(rng, T, G, fail=(), tag='ag'):
+    """Metamorphic pair on one graph: request the aggregate G vs request its dependencies."""
+    res = []
+    for roots in ([G], list(dict.fromkeys(T[G]['deps']))):
+        if not roots:
+            # an empty aggregate vs "nothing requested": compare with the trivially successful empty run
+            res.append({'started': set(), 'exit_code': 0, 'outcome': 'exited', 'keepalive': False, 'roots': []})
+            continue
+        r = __import__('random').Random(rng.getrandbits(32))
+        obs, V = oneshot(r, T, roots, fail=fail, gated=True, tag=tag, hang_s=2.0)
+        started = {t for k, t, _ in obs['trace'] if k == 'start'}
+        res.append({'started': started, 'exit_code': obs['exit_code'] if obs['outcome'] == 'exited' else None,
+                    'outcome': obs['outcome'], 'keepalive': obs['outcome'] != 'exited', 'roots': roots, 'V': V,
+                    'trace': obs['trace'], 'failed': {t for k, t, x in obs['trace'] if k == 'end' and x != '0'}})
+    a, b = res
+    V = {}
+    texts = []
+    # with failures the set of started scripts may legitimately differ by timing (independent targets keep running until
+    # shutdown); compare the scripts only for successful runs, the exit status class and the liveness always
+    if not fail:
+        if a['started'] != b['started']:
+            texts.append('scripts run differ: requesting %s ran %s, requesting its dependencies %s ran %s'
+                         % (G, sorted(a['started']), b['roots'], sorted(b['started'])))
+    ea = None if a['exit_code'] is None else (a['exit_code'] != 0)
+    eb = None if b['exit_code'] is None else (b['exit_code'] != 0)
+    if ea != eb:
+        texts.append('exit status differs: %s -> %s (%s), dependencies %s -> %s (%s)'
+                     % (G, a['exit_code'], a['outcome'], b['roots'], b['exit_code'], b['outcome']))
+    if a['keepalive'] != b['keepalive']:
+        texts.append('liveness differs: %s keeps zinoma alive: %s; its dependencies: %s' % (G, a['keepalive'], b['keepalive']))
+    if texts:
+        V['C20'] = texts
+    obs = {'targets': T, 'aggregate': G, 'fail': sorted(fail),
+           'requesting_aggregate': {k: (sorted(v) if isinstance(v, set) else v) for k, v in a.items() if k not in ('V',)},
+           'requesting_dependencies': {k: (sorted(v) if isinstance(v, set) else v) for k, v in b.items() if k not in ('V',)}}
+    return obs, V
